@@ -186,6 +186,16 @@ def run_unit(u):
         nums = ['0', '-0', '1', '-1', '1.5', '-1.5', '.5', '-.5', '0.0', '00', '007', '1.', '.', '-', '+1', '1e3', '1E3', 'NaN', 'inf', ' 1', '1 ',
                 '1,5', '1_0', '0x10', '١', '１', '1.5.5', '--1', '-+1', '1-', '1' * 400, '0.' + '0' * 400 + '1', '-' + '9' * 310, '9' * 310 + '.5',
                 '', '5', '10', '2.50', '-0.5', '3']
+        # valid strings longer than the interpreter's int<->str digit limit (4300): still numbers / dates
+        long_year = '1' + '0' * 4295
+        for t, lo_, hi_ in (('number', '1', '9' * 5000), ('number', '0.' + '0' * 5000 + '1', '5'), ('range', '-' + '9' * 4400 + '.5', '0'),
+                            ('date', '2020-01-01', long_year + '-01-01'), ('month', '2020-01', long_year + '-12'),
+                            ('datetime-local', '2020-01-01T00:00', long_year + '-01-01T10:00'), ('week', '2020-W01', long_year + '-W01')):
+            case(t, lo_, hi_, lo_, label='very_long_values')
+            case(t, lo_, None, hi_, label='very_long_values')
+            case(t, None, lo_, hi_, label='very_long_values')
+            case(t, hi_, None, lo_, label='very_long_values')
+            case(t, lo_, hi_, hi_, label='very_long_values')
         for a in nums:
             for t in ('number', 'range'):
                 case(t, a, None, None, label='numbers')
